@@ -149,6 +149,10 @@ def install_more(w):
                 parts.append(kw[p])
         out = Val(mks(z3.Concat(terms) if len(terms) > 1 else terms[0]), str, parts=parts)
         out.py = None
+        if t.py in getattr(w, "status_templates", ()):
+            from .externs_duck import IS_STATUS
+
+            st.assume(IS_STATUS(V.sval(out.t)))
         return out
 
     H["string.Template.substitute"] = template_substitute
